@@ -197,7 +197,9 @@ func (c *cache[K, V]) DeleteExpired() error {
 
 	c.mu.Lock()
 	for k, item := range c.items {
-		if now > item.expiration && item.expiration != int64(NoExpiration) {
+		// Only a positive expiration is a deadline: -1 (NoExpiration) and 0
+		// (stored under a zero default) both mean that the item never expires.
+		if item.expiration > 0 && now > item.expiration {
 			if e := c.delete(k); e != nil {
 				err = errors.Join(err, e)
 			}
